@@ -7,6 +7,7 @@
 From Coq Require Import List Bool ZArith.
 Import ListNotations.
 From V Require Import PyBase Values Shipped_gen PandasContains_gen ContainsTheory TotalTheory.
+From V Require Import PyValues PythonContains_gen PythonBag.
 
 Theorem C07_empty_column_is_only_Generic :
   forall t s, s_vals s = [] -> In t complete_set -> t <> tGeneric -> pandas_contains t s = Ok false.
@@ -30,3 +31,10 @@ Proof.
   - exact (datetime_dtypes_are_DateTime s).
 Qed.
 Print Assumptions C07_family_dtypes_are_recognised.
+
+(* Python-list backend (REGENERATED backends/python/types/*.py): the empty list is in no type of a shipped
+   typeset that has an identity edge from Generic, so the traversal from Generic takes no step on [] *)
+Theorem C07_python_empty_list_is_in_no_child_of_Generic :
+  forall t, mem_ty t complete_set = true -> generic_identity_child t = true -> python_contains t [] = false.
+Proof. exact python_empty_in_no_child_of_generic. Qed.
+Print Assumptions C07_python_empty_list_is_in_no_child_of_Generic.
